@@ -38,11 +38,12 @@ ASSUMPTIONS = [
 SUBJECTS = ["TestResult", "TextTestResult", "Multi[ext,real]", "TFR[ext]", "TFR[real]", "E2O[py26]",
             "E2O[py27]", "E2O[twisted]", "E2O[ext]", "E2O[real]", "Decorator[ext]", "Tagger[ext]", "TBT",
             "E2O[Multi[ext]]", "Tagger[Multi[ext,real]]", "Multi[TBT,ext]", "E2S", "Multi[Tagger[ext],ext]",
-            "TaggerGoneOnly[ext]", "TaggerGoneOnly[TFR[real]]", "E2O[E2S]"]
+            "TaggerGoneOnly[ext]", "TaggerGoneOnly[TFR[real]]", "E2O[E2S]", "TBT+host"]
 
 
 class Subject:
     side = None
+    extra = frozenset()
 
     def __init__(self, name):
         import testtools
@@ -110,6 +111,15 @@ class Subject:
                 testtools.Tagger(H.make_leaf("ext", tagged_log), {"tg"}, {"a"}), leaf("ext"))
         elif n == "TBT":
             self.top = tbt()
+        elif n == "TBT+host":
+            # a subclass overriding the public current_tags (every test also carries the host's tag): what the callback
+            # gets is the reporter's current_tags - the overridden one
+            class HostTagged(testtools.TestByTestResult):
+                @property
+                def current_tags(self):
+                    return set(testtools.TestByTestResult.current_tags.fget(self)) | {"host"}
+            self.extra = frozenset(["host"])
+            self.top = HostTagged(lambda **kw: self.tbt_calls.append((kw["test"].id(), frozenset(kw["tags"]))))
         elif n == "Multi[TBT,ext]":
             self.top = testtools.MultiTestResult(tbt(), leaf("ext"))
         elif n in ("E2S", "E2O[E2S]"):
@@ -148,7 +158,7 @@ def x_hist(ctx, case):
         return tests[i]
 
     def model():
-        return set(cur if cur is not None else run_tags)
+        return set(cur if cur is not None else run_tags) | subject.extra
 
     step = 0
     try:
@@ -339,11 +349,15 @@ def x_raw_stream(ctx, case):
     want = []
     for i, t in enumerate(case["tests"]):
         tid = "r%d" % i
-        events = [dict(test_id=tid, test_status="inprogress", test_tags=set(t["start"]))]
+        import datetime
+        t0 = datetime.datetime(2022, 3, 3, tzinfo=datetime.timezone.utc)
+        stamps = iter([t0 + datetime.timedelta(seconds=x) for x in t.get("clock", [0, 1, 2, 3])] + [None] * 4)
+        events = [dict(test_id=tid, test_status="inprogress", test_tags=set(t["start"]), timestamp=next(stamps))]
         for k, mid in enumerate(t.get("mid", [])):
             events.append(dict(test_id=tid, file_name="f%d" % k, file_bytes=b"x", eof=True, mime_type="text/plain",
-                               test_tags=set(mid)))
-        events.append(dict(test_id=tid, test_status=t["status"], test_tags=set(t["end"])))     # (a set, also when empty: None would mean "nothing said")
+                               test_tags=set(mid), timestamp=next(stamps)))
+        # (a set, also when empty: None would mean "nothing said"; the clock may have stepped BACK since the start)
+        events.append(dict(test_id=tid, test_status=t["status"], test_tags=set(t["end"]), timestamp=next(stamps)))
         for c in consumers:
             for e in events:
                 c.status(**e)
@@ -468,6 +482,7 @@ def run(ctx):
             ctx.execute("raw_stream", {"tests": [
                 {"start": rng.sample(pool, rng.randint(0, 3)), "end": rng.sample(pool, rng.randint(0, 3)),
                  "mid": [rng.sample(pool, rng.randint(0, 3)) for _ in range(rng.randint(0, 2))],
+                 "clock": rng.choice([[0, 1, 2, 3], [5, 4, 3, 2], [10, 10, 0, 0], [3, 9, 1, 2]]),
                  "status": rng.choice(["success", "fail", "skip", "xfail", "uxsuccess"])}
                 for _ in range(rng.randint(1, 4))]})
         subj, hist = rng.choice(SUBJECTS), random_history(rng)
